@@ -41,7 +41,7 @@ Flag(cond, name) == IF cond THEN {} ELSE {name}
 StopModes == {"cancel", "provfail"}
 
 \* the abstract sample of a logged report
-Abs(s) == [sec |-> s.sec, ms |-> s.ms, tag |-> s.tag, id |-> s.id, f |-> s.f]
+Abs(s) == [sec |-> s.sec, ms |-> s.ms, tag |-> s.tag, tagp |-> (IF "tagp" \in DOMAIN s THEN s.tagp ELSE <<>>), id |-> s.id, f |-> s.f]
 \* kinds without a result file: "log" writes every sample through to the logger (the entry is the line),
 \* "discard" throws every sample away
 NoFile == {"log", "discard"}
